@@ -251,6 +251,46 @@ func runC19(cfg *config, res *monitor.Result) {
 				return
 			}
 		}
+		// the same field with an over-long (padded, still valid) length prefix followed by another field: DecodeNested
+		// must consume exactly key + prefix as written + payload
+		{
+			alt := refwire.AppendKey(nil, tag, refwire.WTLen)
+			lp := refwire.AppendVarint(nil, uint64(len(B)))
+			lp[len(lp)-1] |= 0x80
+			lp = append(lp, 0x80, 0x00)
+			alt = append(append(alt, lp...), B...)
+			end := len(alt)
+			alt = refwire.AppendFixed32(refwire.AppendKey(alt, 3, refwire.WTFixed32), 0xCAFEBABE)
+			d5 := csproto.NewDecoder(alt)
+			var derr error
+			var nt int
+			var nwt csproto.WireType
+			pi := monitor.Try(func() {
+				if _, _, derr = d5.DecodeTag(); derr != nil {
+					return
+				}
+				var dst any = &stubTo{}
+				if tt, ok := nc.desc["target"].(target); ok {
+					dst = tt.pkg.New(tt.md.FullName())
+				}
+				if derr = d5.DecodeNested(dst); derr != nil {
+					return
+				}
+				if d5.Offset() != end {
+					derr = fmt.Errorf("cursor at %d after DecodeNested, the field ends at %d", d5.Offset(), end)
+					return
+				}
+				nt, nwt, derr = d5.DecodeTag()
+				if derr == nil && (nt != 3 || nwt != csproto.WireTypeFixed32) {
+					derr = fmt.Errorf("next key read as (%d, %d), written (3, fixed32)", nt, nwt)
+				}
+			})
+			if pi != nil {
+				viol("decode-padded-length-prefix", "DecodeNested panicked on a field with an over-long length prefix: "+pi.Value)
+			} else if derr != nil {
+				viol("decode-padded-length-prefix", "field with an over-long (valid) length prefix: "+derr.Error())
+			}
+		}
 		// declared length beyond the buffer: rejected without invoking the nested decoder
 		if len(B) > 0 {
 			trunc := buf[:before+len(want)-1]
